@@ -131,7 +131,8 @@ package binpatch
 //@   ensures @success_means_committed ret0 == nil ==> committed
 //@
 //@ func Load
-//@   property C12
+//@   property C12 C11
+//@   nopanic
 //@   ghost hdrOK bool = false
 //@   ghost entriesOK bool = false
 //@   on call encoding/binary.Read(_, _, d) ret (e): hdrOK = hdrOK || (e == nil && d == iface(addr(h))); \
